@@ -100,6 +100,9 @@ def gen_new(w, r, kinds=None):
         op["subclass"] = True
     if r.random() < w.cfg.get("p_explicit_uuid", 0.85):
         op["uuid"] = r.getrandbits(128)
+        if r.random() < 0.03:
+            # the edge values of the UUID space (a caller may supply any UUID): nil and max
+            op["uuid"] = r.choice([0, 0, (1 << 128) - 1, 1])
     else:
         op["uuid"] = None
     op["attrs"] = gen_attrs(w, r, kind)
